@@ -438,6 +438,12 @@ func c13Export(r *rand.Rand, idx int) Case {
 	file := filepath.Join(c13Dir(), fmt.Sprintf("exp%d.out", idx))
 	_ = os.Remove(file)
 	defer os.Remove(file)
+	// half of the time the target already exists with longer, unrelated content: export replaces it
+	stale := ""
+	if r.Intn(2) == 0 {
+		stale = strings.Repeat("stale: [\"left over from an earlier, longer export\", 1, 2, 3]\n", 30)
+		_ = os.WriteFile(file, []byte(stale), 0o644)
+	}
 	op := &pipeline.ExportOp{File: &pipeline.ValOrRef{Val: file}, Format: pipeline.OutputFormat(format)}
 	if pathp != nil {
 		op.Path = &pipeline.ValOrRef{Val: *pathp}
@@ -452,6 +458,12 @@ func c13Export(r *rand.Rand, idx int) Case {
 		fail = append(fail, "export changed the data")
 	}
 	content, rerr := os.ReadFile(file)
+	if stale != "" && rerr == nil && err != nil && string(content) == stale {
+		rerr = os.ErrNotExist // failed before touching the file: same observation as "no file written"
+	}
+	if stale != "" && err == nil && strings.Contains(string(content), "left over from") {
+		fail = append(fail, "export into an existing file left old content behind")
+	}
 	obs := ""
 	switch {
 	case err != nil && rerr != nil:
@@ -630,7 +642,9 @@ func c13Lenient(r *rand.Rand) Case {
 		sb.WriteString(alphabet[r.Intn(len(alphabet))])
 	}
 	s := sb.String()
-	switch r.Intn(6) {
+	switch r.Intn(9) {
+	case 3, 4, 5: // text, then an action that fails at execution time: nothing of the partial output may show
+		s = []string{"backup-{{ index .x 5 }}.yaml", "pre {{ .x.y.z }} post", "a{{ fail \"boom\" }}b", "{{ .x }}-{{ index .x 9 }}"}[r.Intn(4)]
 	case 0:
 		s = "{{ .x | nosuchfunc }}" // failing action (parse error: unknown function)
 	case 1:
